@@ -70,6 +70,7 @@ def step (line : String) : String :=
       | some "feat_con_apr_flatness" => showO (aprFlatness E x y fit cp)
       | some "feat_con_idt_monotony" => showO (idtMonotonyCore E x y cp)
       | some "feat_con_idt_spike_area" => showO (idtSpikeAreaCore E x y fit cp)
+      | some "feat_con_idt_maxima_75perc" => showO (idtMaxima75Core E x y fit cp)
       | _ => "not-modelled"
     | some "names" =>
       let members := (strs "members").getD []
